@@ -215,6 +215,12 @@ pub fn eval_case(ops: &[Op], drv: Option<&mut Drv>, pools: &[Pool], rng: &mut Rn
         plan_rounds.clear();
         let mut cands = all_tags.clone();
         rng.shuffle(&mut cands);
+        // a thread-local system inside a batch (it runs on a pool worker) first, more often than not
+        if let Some(i) = cands.iter().position(|t| built.infos[t].is_tl && built.infos[t].parent.is_some()) {
+            if rng.chance(60) {
+                cands.swap(0, i);
+            }
+        }
         for t in cands.into_iter().take(6) {
             let mode = if rng.chance(75) { "par" } else { "seq" };
             let how = if built.infos[&t].is_batch || rng.chance(50) {
@@ -226,6 +232,10 @@ pub fn eval_case(ops: &[Op], drv: Option<&mut Drv>, pools: &[Pool], rng: &mut Rn
             } else {
                 4
             };
+            // flat plans: the caller of dispatch itself still holds a guard on something the system
+            // fetches (the documented way to make dispatch panic); the system's fetch is refused by the world
+            let (fr, fw) = (built.infos[&t].r.clone(), built.infos[&t].w.clone());
+            let how = if Op::depth(ops) == 0 && !(fr.is_empty() && fw.is_empty()) && rng.chance(25) { 5 } else { how };
             plan_rounds.push((mode.to_string(), Some(t), how));
             // the clean dispatch after it: the same way, or another way of dispatching (what one
             // entry point leaves behind when it unwinds must not disturb another)
@@ -287,6 +297,7 @@ pub fn eval_case(ops: &[Op], drv: Option<&mut Drv>, pools: &[Pool], rng: &mut Rn
             }
         }
         let mut panicking: Vec<usize> = vec![];
+        let mut outer_guard: Option<Box<dyn Cell + '_>> = None;
         if let Some(t) = panic_tag {
             if t == usize::MAX {
                 let mut wide: Vec<&Vec<Vec<usize>>> = lay.stages.iter().chain(lay.inner.values().flat_map(|l| l.stages.iter())).filter(|st| st.len() > 1).collect();
@@ -302,8 +313,17 @@ pub fn eval_case(ops: &[Op], drv: Option<&mut Drv>, pools: &[Pool], rng: &mut Rn
             } else {
                 panicking.push(t);
             }
-            for p in &panicking {
-                shared.behav[*p].panic_mode.store(how, SeqCst);
+            if how == 5 {
+                let (fr, fw) = (built.infos[&panicking[0]].r.clone(), built.infos[&panicking[0]].w.clone());
+                let all: Vec<Res> = fr.into_iter().chain(fw).collect();
+                let x = *rng.pick(&all);
+                // everybody who fetches x is refused (whoever gets that far)
+                panicking = all_tags.iter().copied().filter(|t| built.infos[t].r.contains(&x) || built.infos[t].w.contains(&x)).collect();
+                outer_guard = Some(borrow_excl(&world, x));
+            } else {
+                for p in &panicking {
+                    shared.behav[*p].panic_mode.store(how, SeqCst);
+                }
             }
             out.panics_injected += panicking.len() as u64;
         }
@@ -325,6 +345,8 @@ pub fn eval_case(ops: &[Op], drv: Option<&mut Drv>, pools: &[Pool], rng: &mut Rn
             _ if via_run_now => disp.run_now(&world),
             _ => disp.dispatch(&world),
         }));
+        let held_outside = outer_guard.is_some();
+        drop(outer_guard);
         let log = shared.take_log();
         out.traces += 1;
         out.events += log.len() as u64;
@@ -356,6 +378,7 @@ pub fn eval_case(ops: &[Op], drv: Option<&mut Drv>, pools: &[Pool], rng: &mut Rn
                 let m = panic_message(p);
                 let rd = shared.round.load(SeqCst);
                 let ok = panicking.iter().any(|t| m == format!("harness panic (run) {} #{}", t, rd) || m == format!("harness panic (fetch) {} #{}", t, rd) || m == format!("harness panic (typed) {} #{}", t, rd) || m == format!("harness panic (like-borrow) {} #{}: already borrowed", t, rd));
+                let ok = ok || (held_outside && m.contains("borrowed") && !m.starts_with("harness panic"));
                 if !ok {
                     out.impl_v.push(("C14".into(), format!("the panic that reached the caller carries {:?}, not the payload of a panicking system ({:?})", m, panicking)));
                 }
@@ -622,6 +645,10 @@ pub fn run(args: &Args, rep: &mut Report) {
             }
         }
         for (aspect, what) in &o.model_v {
+            if kf1 && aspect == "thread" && !kf1_props.contains(&prop.as_str()) {
+                // the thread a batch's thread-local system runs on is the open finding KF1 (C12)
+                continue;
+            }
             if reported.insert(format!("model:{}:{}", aspect, kf1)) {
                 let cls = if kf1 && matches!(aspect.as_str(), "trace" | "effects" | "thread") { "kf1:model" } else { "" };
                 rep.violate(&format!("MODEL:{}", aspect), "model", cls, format!("{} [{}; layout {}]", what, label, o.layout), case_lines(&ops));
